@@ -223,6 +223,19 @@ func runC02(c *core.Ctx) *core.Violation {
 	}
 	var toolProc *simrt.Proc
 	var tgt *modelredis.Server
+	var victim *simnet.Conn
+	cutArmed := t.Choose(10) == 9
+	var cutAfter int64
+	if cutArmed {
+		total := 0
+		for _, e := range entries {
+			total += len(e.Value) + len(e.Key) + 40
+		}
+		if total > 3000 && t.Choose(2) == 0 {
+			total = 3000 // most entries are small: keep half of the cuts inside the first few kilobytes
+		}
+		cutAfter = int64(30 + t.Choose(total+200))
+	}
 	cfg := simrt.Config{MaxSteps: 3000000, MaxSimTime: time.Hour, Trace: c.Trace}
 	s := simrt.Run(c.TT, t, cfg, func(s *simrt.Sim) {
 		net := simnet.New(s)
@@ -233,6 +246,16 @@ func runC02(c *core.Ctx) *core.Violation {
 		tgt.Password = tgtPassword
 		tgt.Version, tgt.RDBVersion, tgt.KnownType, tgt.RestoreReplace, tgt.RestoreIdleFreq = fl.version, fl.rdbVersion, fl.known, fl.replace, fl.idleFreq
 		toolProc = s.NewProc("tool")
+		// fault: the connection is reset after a tape-chosen number of bytes written by the tool (1 run in 10).
+		// A reset restore must end in an error or an abort; wherever success is still reported the value must be exact.
+		if cutArmed {
+			tgt.L.OnAccept = func(cl, sv *simnet.Conn) {
+				if victim == nil {
+					victim = cl
+					cl.CutAfterTotal(cutAfter)
+				}
+			}
+		}
 
 		// key name as the tool will use it
 		targetKey := func(k []byte) string {
@@ -302,6 +325,7 @@ func runC02(c *core.Ctx) *core.Violation {
 			fail("go-panic", "target.version="+tv, "Go panic in the restore path: %s", firstLines(toolProc.PanicMsg, 5))
 			return
 		}
+		cutHit := victim != nil && victim.CutFired
 		// ---- oracle, record by record
 		ei := 0
 		for ri, r := range recs {
@@ -360,6 +384,10 @@ func runC02(c *core.Ctx) *core.Violation {
 					}
 					continue
 				case "ignore":
+					if aborted && cutHit {
+						c.Probe("conn_reset_reported")
+						return
+					}
 					if aborted {
 						fail("exists-ignore-abort", psite, "key %q existed, key_exists=ignore, but the tool aborted: %s", clipS(r.Key), lc.LastPanic())
 						return
@@ -370,6 +398,11 @@ func runC02(c *core.Ctx) *core.Violation {
 					}
 					continue
 				}
+			}
+			if cutHit && (aborted || firstErr != nil) {
+				// the injected reset surfaced as an error or an abort: reported, nothing more to judge
+				c.Probe("conn_reset_reported")
+				return
 			}
 			if aborted {
 				fail("abort", site+",err="+env.ErrClass(lc.LastPanic()), "restore of key %q aborted the tool: %s", clipS(r.Key), lc.LastPanic())
@@ -430,6 +463,15 @@ func runC02(c *core.Ctx) *core.Violation {
 		}
 	})
 	c.Absorb(s)
+	c.Log = append(lc.Tail(25), fmt.Sprintf("tool: exited=%v panicked=%v; cut armed=%v after=%d fired=%v", toolProc != nil && toolProc.Exited, toolProc != nil && toolProc.Panicked, cutArmed, cutAfter, victim != nil && victim.CutFired))
+	if tgt != nil {
+		n := len(tgt.Applied)
+		for i, a := range tgt.Applied {
+			if i < 12 || i >= n-12 {
+				c.Log = append(c.Log, fmt.Sprintf("applied %d: %s -> %s", i, clipS([]byte(a.String())), strings.TrimSpace(a.Reply)))
+			}
+		}
+	}
 	if c.Debug != "" && tgt != nil {
 		var sb strings.Builder
 		counts := map[string]int{}
@@ -524,7 +566,7 @@ func init() {
 			"streams are only restored into targets that know them (the element-wise route cannot split a stream)",
 		},
 		RealVsStub: "real: utils.RestoreRdbEntry and all routes, utils.OpenRedisConn, redigo, pkg/rdb loader; simulated: TCP (simnet), target (modelredis), clock, scheduling, process exit",
-		ProbeNames: []string{"route_restore", "route_elementwise", "route_fallback_bad_format", "busykey", "version_one_component", "type_hash", "type_zset", "type_list", "type_set", "type_string"},
-		FaultNames: []string{"segment_split", "latency", "short_read"},
+		ProbeNames: []string{"route_restore", "route_elementwise", "route_fallback_bad_format", "busykey", "version_one_component", "type_hash", "type_zset", "type_list", "type_set", "type_string", "conn_reset_reported"},
+		FaultNames: []string{"segment_split", "latency", "short_read", "conn_cut"},
 	})
 }
